@@ -330,6 +330,25 @@ func runC17_7(c *core.Ctx) {
 		}
 		return true
 	})
+	// … or by a type switch over it: `switch a := c.localAddr.(type) { case *net.TCPAddr: … a.Zone … }`
+	ast.Inspect(f.Decl.Body, func(n ast.Node) bool {
+		ts, ok := n.(*ast.TypeSwitchStmt)
+		if !ok {
+			return true
+		}
+		as, ok := ts.Assign.(*ast.AssignStmt)
+		if !ok || len(as.Rhs) != 1 {
+			return true
+		}
+		if ta, ok := ast.Unparen(as.Rhs[0]).(*ast.TypeAssertExpr); ok && flow.FieldOf(f.Info, ta.X) == localF {
+			for _, cl := range ts.Body.List {
+				if o := f.Info.Implicits[cl]; o != nil {
+					local[o] = true
+				}
+			}
+		}
+		return true
+	})
 	const fClient = 1
 	p := &flow.Problem{Must: true}
 	p.Edge = func(e *flow.Edge, in uint64) uint64 {
@@ -409,7 +428,7 @@ func runC17_7(c *core.Ctx) {
 func init() {
 	register(&core.Rule{ID: "C17.8", Prop: "C17", MinSites: 2,
 		Desc: "address bytes are normalised to the array they fill: every copy into unix.SockaddrInet4.Addr takes its source from To4() and every copy into SockaddrInet6.Addr from To16() (directly or through a variable bound to that call) – a 16-byte IPv4 net.IP copied as it is puts its leading zeros into the 4-byte field (0.0.0.0)",
-		Run: runC17_8})
+		Run:  runC17_8})
 }
 
 func runC17_8(c *core.Ctx) {
@@ -476,7 +495,7 @@ func runC17_8(c *core.Ctx) {
 func init() {
 	register(&core.Rule{ID: "C17.9", Prop: "C17", MinSites: 8,
 		Desc: "no typed nil behind the Sockaddr interface: every value a conversion function returns as unix.Sockaddr is the untyped nil, the address of a value (&x, &T{…}) or another converter's result – never a pointer variable, which would make a failed conversion compare != nil and be dereferenced by sendto",
-		Run: runC17_9})
+		Run:  runC17_9})
 }
 
 func runC17_9(c *core.Ctx) {
@@ -544,10 +563,10 @@ func runC17_9(c *core.Ctx) {
 func init() {
 	register(&core.Rule{ID: "C17.10", Prop: "C17", MinSites: 3,
 		Desc: "a server loop knows its listeners: in the server start-up functions every event loop is given its listeners map before it is registered with the load balancer or becomes the main reactor – conn.release() tells a client loop (whose connections own their local address) from a server loop (whose connections share the listener's) by len(c.loop.listeners)",
-		Run: runC17_10})
+		Run:  runC17_10})
 	register(&core.Rule{ID: "C08.10", Prop: "C08", MinSites: 2,
 		Desc: "a datagram Write always becomes a datagram: no return of conn.Write (or SendTo) is reachable before the isDatagram dispatch – an early return for an empty payload would drop the empty datagram a UDP handler answers with",
-		Run: runC08_10})
+		Run:  runC08_10})
 }
 
 func runC17_10(c *core.Ctx) {
